@@ -55,6 +55,10 @@ func VH_C08_method() {
 		vx.Assert(p3 == (up == "*"), "C08: the same route for another method is accepted (unless registered for all methods)")
 		p4 := vPanics(func() { r.Route(method, "/a/{x", []Handler{func() {}}) })
 		vx.Assert(p4, "C08: route text outside the grammar is rejected at registration time")
+		p5 := vPanics(func() { r.Route(method, "/a/{x", []Handler{func() {}}) })
+		p6 := vPanics(func() { r.Route(other, "/b/c d", []Handler{func() {}}) })
+		p7 := vPanics(func() { r.Route(other, "/b/c d", []Handler{func() {}}) })
+		vx.Assert(p5 && p6 && p7, "C08: ... every time it is offered, for every method")
 	}
 	vx.Observe("method", method, known, p1)
 }
